@@ -31,5 +31,9 @@ int main() {
   printf("#define SIZEOF_NodeMapEntry %zu\n#define OFF_NodeMapEntry_second %zu\n", sizeof(E), offsetof(E, second));
   typedef std::unordered_map<std::string_view, std::shared_ptr<SegmentTreeNode>> NM; S(NodeMap, NM);
   S(StringView, std::string_view);
+  O(Router_routes, Router, routes); O(Router_customHandlers, Router, customHandlers); O(Router_middlewares, Router, middlewares); O(Router_notFoundHandler, Router, notFoundHandler); S(Router, Router);
+  typedef std::pair<const Http::Method, SegmentTreeNode> ME; printf("#define SIZEOF_MethodEntry %zu\n#define OFF_MethodEntry_node %zu\n", sizeof(ME), offsetof(ME, second));
+  S(RouteHandler, Route::Handler); S(RouteMiddleware, Route::Middleware);
+  printf("#define VP_STATUS_MATCH %d\n#define VP_STATUS_NOTFOUND %d\n#define VP_STATUS_NOTALLOWED %d\n#define VP_RESULT_OK %d\n#define VP_CODE_NOT_FOUND %d\n", (int)Route::Status::Match, (int)Route::Status::NotFound, (int)Route::Status::NotAllowed, (int)Route::Result::Ok, (int)Http::Code::Not_Found);
   return 0;
 }
